@@ -44,7 +44,7 @@ ASSUMPTIONS = [
 BOUNDS = {
     "quick": "2-d: all sets of <= 2 of the 36 lattice segments x 3 scales x {header, no header}, plus all sets of <= 2 with "
              "tagged fractures (2 tag assignments); 3-d: all sets "
-             "of <= 2 of 9 polygons x 3 scales x {domain, none}; txt: 1-3 columns x 1-4 rows x 4 format "
+             "of <= 2 of 9 polygons x 3 scales x {domain, none} x {as is, translated to negative coordinates}; txt: 1-3 columns x 1-4 rows x 4 format "
              "assignments x 2 value sets x 2 name sets",
     "thorough": "2-d: all sets of <= 3 segments x 3 scales x {header, no header}, plus all sets of <= 2 with tagged fractures; 3-d: all sets of <= 3 of 9 "
                 "polygons x 3 scales x {domain, none}; txt as quick plus 5 and 7 rows",
@@ -92,6 +92,9 @@ def cases(tier):
             out.append({"kind": "3d", "scale": s, "domain": dom, "first": None, "maxn": 0})
             for i in range(len(POLYS)):
                 out.append({"kind": "3d", "scale": s, "domain": dom, "first": i, "maxn": n3})
+                # the same polygons translated so that coordinates (also the very first entry of a
+                # line) are negative
+                out.append({"kind": "3d", "scale": s, "domain": dom, "first": i, "maxn": 2, "shift": [-1.0, -0.5, -1.5]})
     for c in (1, 2, 3):
         for r in ROWS[tier]:
             out.append({"kind": "txt", "cols": c, "rows": r})
@@ -211,10 +214,11 @@ def _run_3d(case, out):
 
     sc = SCALES[case["scale"]]
     with_dom = case["domain"]
-    fname = Path(f"net3d_{case['scale']}_{int(with_dom)}_{case['first']}.csv")
+    shift = case.get("shift", [0.0, 0.0, 0.0])
+    fname = Path(f"net3d_{case['scale']}_{int(with_dom)}_{case['first']}_{int(any(shift))}.csv")
     box = {"xmin": -1.0 * sc, "ymin": -0.5, "zmin": -2.0, "xmax": 3.0, "ymax": 2.5 * sc, "zmax": 7.0 / 3.0}
     for sub in _subsets_with_first(len(POLYS), case["first"], case["maxn"]):
-        polys = [[tuple(sc * c for c in v) for v in POLYS[i]] for i in sub]
+        polys = [[tuple(sc * (c + t) for c, t in zip(v, shift)) for v in POLYS[i]] for i in sub]
         desc = {"polygons": polys, "domain": box if with_dom else None}
         try:
             fracs = [pp.PlaneFracture(np.array(p, dtype=float).T) for p in polys]
@@ -248,7 +252,7 @@ def _run_3d(case, out):
             out.ev("VIOLATION")
             continue
         nontriv = len(polys) >= 2 or case["scale"] == 2
-        key = ("3d", case["scale"], with_dom, sub) if nontriv else None
+        key = ("3d", case["scale"], with_dom, sub, any(shift)) if nontriv else None
         if got != written:
             out.violate("3-d network read back differs from the one written", written=written, read=got, **desc)
             out.ev("VIOLATION")
@@ -258,7 +262,7 @@ def _run_3d(case, out):
             out.ev("VIOLATION")
             continue
         sizes = "+".join(str(len(p)) for p in polys) or "none"
-        out.ev(f"3d/{sizes}/scale{case['scale']}/{'dom' if with_dom else 'nodom'}", key)
+        out.ev(f"3d/{sizes}/scale{case['scale']}/{'dom' if with_dom else 'nodom'}" + ('/neg' if any(shift) else ''), key)
         if len(polys) >= 2 and not out.samples:
             out.samples.append({"kind": "3d", **desc, "file": fname.read_text()})
     if fname.exists():
